@@ -4,7 +4,7 @@ EXTENDS InitOrder, Json, IOUtils
 
 CONSTANT Set      \* name of the scenario set (see ScnByName)
 
-K(a, p) == [a |-> a, p |-> p]
+K(a, p) == [a |-> a, p |-> p, t |-> NativeType(a)]
 KindsOf(arrs, prios) == {K(a, p) : a \in arrs \ {"preinit"}, p \in prios}
                             \cup (IF "preinit" \in arrs THEN {K("preinit", NoPrio)} ELSE {})
 
@@ -32,11 +32,17 @@ LayoutsOf(n) ==
                         THEN /\ lay[o].pulledby # o
                              /\ lay[o].pulledby > 0 => lay[lay[o].pulledby].member
                         ELSE lay[o].pulledby = 0}
-Mk(sh, f, lay) ==
+(* fl[o] = "swapped": object o comes from a toolchain that types its sections the other way round
+   (.init_array* etc. PROGBITS, .ctors* / .dtors* INIT_ARRAY / FINI_ARRAY) *)
+Retype(k, flavour) ==
+    IF flavour = "swapped" THEN [k EXCEPT !.t = IF Legacy(k.a) THEN "array" ELSE "progbits"] ELSE k
+Mk(sh, f, lay, fl) ==
     [o \in 1..Len(sh) |-> [member |-> lay[o].member, pulledby |-> lay[o].pulledby,
-                            entries |-> [e \in 1..sh[o] |-> f[Offset(sh, o) + e]]]]
+                            entries |-> [e \in 1..sh[o] |-> Retype(f[Offset(sh, o) + e], fl[o])]]]
 Gen(kinds, nobj, per, total, layouts) ==
-    [kinds |-> kinds, nobj |-> nobj, per |-> per, total |-> total, layouts |-> layouts]
+    [kinds |-> kinds, nobj |-> nobj, per |-> per, total |-> total, layouts |-> layouts, typed |-> FALSE]
+GenTyped(kinds, nobj, per, total) ==
+    [kinds |-> kinds, nobj |-> nobj, per |-> per, total |-> total, layouts |-> FALSE, typed |-> TRUE]
 
 InitFam == {"init", "ctors"}
 FiniFam == {"fini", "dtors"}
@@ -58,15 +64,20 @@ GensByName(n) ==
       [] n = "ar3x" -> {Gen(KindsOf(InArrays, PriosTiny), 3, 2, 3, TRUE)}
       [] n = "devprobe" -> {Gen(KindsOf(InitFam, {NoPrio, 0, 1, 65534, 65535}), 2, 1, 2, FALSE),
                             Gen({K("init", NoPrio)}, 3, 1, 3, TRUE)}
+      (* D: section types - array sections typed PROGBITS and the converse, >= 2 entries per section *)
+      [] n = "typed" -> {GenTyped({K("init", NoPrio), K("init", 1), K("fini", NoPrio), K("fini", 1),
+                                   K("ctors", NoPrio), K("dtors", NoPrio), K("preinit", NoPrio)}, 2, 2, 3)}
+      [] n = "typedx" -> {GenTyped(KindsOf(InArrays, PriosTiny), 2, 3, 3)}
       [] n = "mix4t" -> {Gen(KindsOf(InArrays, PriosTiny), 3, 3, 4, FALSE)}
       (* quick: three entries over the boundary priorities, two entries over all of them (9 < 100
          tells a numeric from a lexicographic comparison of the suffix) *)
       [] n = "init3s" -> {Gen(KindsOf(InitFam, {NoPrio, 0, 1, 65534, 65535}), 3, 3, 3, FALSE),
                           Gen(KindsOf(InitFam, PriosDesign \cup {9}), 2, 2, 2, FALSE)}
       [] n = "quick" -> GensByName("init3s") \cup GensByName("fini2") \cup GensByName("mix3") \cup GensByName("ar3")
+                         \cup GensByName("typed")
       [] n = "thorough_a" -> GensByName("init4")
       [] n = "thorough_b" -> GensByName("fini3") \cup GensByName("wide3") \cup GensByName("mix4t")
-                              \cup GensByName("ar3x")
+                              \cup GensByName("ar3x") \cup GensByName("typedx")
 Gens == GensByName(Set)
 
 MCInit ==
@@ -74,7 +85,9 @@ MCInit ==
       \E sh \in Shapes(g.nobj, g.per, g.total) :
         \E f \in [1..SumSeq(sh) -> g.kinds] :
           \E lay \in (IF g.layouts THEN LayoutsOf(Len(sh)) ELSE {PlainLayout(Len(sh))}) :
-            InitWith(Mk(sh, f, lay))
+            \E fl \in (IF g.typed THEN [1..Len(sh) -> {"native", "swapped"}]
+                                  ELSE {[o \in 1..Len(sh) |-> "native"]}) :
+              InitWith(Mk(sh, f, lay, fl))
 MCSpec == MCInit /\ [][Next]_vars
 
 (* ---- REPLAY records: a seeded sample of the terminal states ---- *)
@@ -82,7 +95,8 @@ ArrCode(a) == CASE a = "preinit" -> 1 [] a = "init" -> 2 [] a = "fini" -> 3 [] a
 RECURSIVE CodeEntries(_, _, _)
 CodeEntries(es, o, e) ==
     IF e > Len(es) THEN 0
-    ELSE (o * 31 + e * 7) * (ArrCode(es[e].a) * 13 + ((es[e].p + 1) % 101) + 1) + CodeEntries(es, o, e + 1)
+    ELSE (o * 31 + e * 7) * (ArrCode(es[e].a) * 13 + ((es[e].p + 1) % 101) + 1)
+         + (IF es[e].t = NativeType(es[e].a) THEN 0 ELSE o * 3 + e) + CodeEntries(es, o, e + 1)
 RECURSIVE Code(_, _)
 Code(S, o) ==
     IF o > Len(S) THEN 0
@@ -94,8 +108,25 @@ SampleSeed == atoi(IOEnv.C30_SEED)
 TotalEntries(S) == SumSeq([o \in 1..Len(S) |-> Len(S[o].entries)])
 (* the seeded sample, plus every tiny scenario in which a recorded deviation is active (so that each
    of them is reproduced against the real binary in every run) *)
+(* ... plus, in every run, the one-object scenarios whose only section holds all (2 or 3) entries and
+   has a type that does not match its name *)
+SwappedMulti(S) ==
+    /\ Len(S) = 1 /\ Len(S[1].entries) >= 2
+    /\ \A e \in 1..Len(S[1].entries) : S[1].entries[e] = S[1].entries[1]
+    /\ S[1].entries[1].t # NativeType(S[1].entries[1].a)
+(* ... and the same pair followed by a second object with one ordinary priority-1 entry for the
+   same output array *)
+SwappedPairPlus(S) ==
+    /\ Len(S) = 2 /\ Len(S[1].entries) = 2 /\ Len(S[2].entries) = 1
+    /\ S[1].entries[1] = S[1].entries[2]
+    /\ S[1].entries[1].t # NativeType(S[1].entries[1].a)
+    /\ S[2].entries[1].p = 1 /\ S[2].entries[1].t = NativeType(S[2].entries[1].a)
+    /\ ~Legacy(S[2].entries[1].a)
+    /\ OutOf(S[2].entries[1].a) = OutOf(S[1].entries[1].a)
 Sampled(S) == \/ (Code(S, 1) + SampleSeed) % SampleMod = 0
               \/ cls # {} /\ TotalEntries(S) <= 2
+              \/ SwappedMulti(S)
+              \/ SwappedPairPlus(S)
 
 Rec ==
     [objs |-> [o \in 1..Len(scn) |->
